@@ -1,5 +1,6 @@
 import IastModel.Rewriter.Rewrite
 import IastModel.Spec.Directives
+import IastModel.Lemmas.DirectivePass
 /-
   C07 — directive prologues survive.  Proved: the insertion index computed by
   `get_variable_insertion_index` is the length of the directive prologue, and inserting anything that is
@@ -98,5 +99,40 @@ example : directivesOf (insertAt
      .exprStmt (.ident (.user "x") ⟨24,25⟩) ⟨24,26⟩]) [letDecl [0] ⟨0, 30⟩])
     = ["'other'", "'use strict'"] := by
   decide +kernel
+
+
+/-! ### through the whole pass -/
+
+/-- **C07, per block, through the whole pass.**  Whatever block statement the block visitor enters —
+    a function body or any other block, at any depth, in any state — it returns a block whose leading
+    directives are exactly the original statements: the operation visitor returns a directive as it is
+    and never makes one, the `let` goes after the whole directive prologue, and the nested traversal
+    leaves directives alone. -/
+theorem block_directives_through_pass (cfg : Config) (opFuel f : Nat) (ss : List Node) (sp : Span) (s : St) :
+    ∃ ss', (blockVisit cfg opFuel f (.block ss sp) s).1 = .block ss' sp ∧
+      directivesOf ss' = directivesOf ss := by
+  obtain ⟨ss', h1, h2⟩ := block_directives_pass cfg opFuel f ss sp s
+  exact ⟨ss', h1, directivesOf_congr h2⟩
+
+/-- **C07 for the file.**  The directive prologue of the program body is the same before and after
+    the whole pass, prologue insertion included. -/
+theorem program_directives_through_pass (cfg : Config) (pro : List Node) (fuel : Nat) (k : String) (sp : Span)
+    (ns : List String) (body vs : List Node) (s : St)
+    (hpro : ∀ x, pro.head? = some x → isDirectiveStmt x = false) :
+    directivesOf (programBody (programVisit cfg pro fuel (.other k sp ("body" :: ns) (.arr body :: vs)) s).1) =
+      directivesOf body := by
+  by_cases hr : hasReserved (tempPrefix cfg.localVarPrefix) (.other k sp ("body" :: ns) (.arr body :: vs)) = true
+  · simp [programVisit, hr, run_bind, run_pure, cancelVisit, run_modify, programBody]
+  · simp only [Bool.not_eq_true] at hr
+    rw [programVisit_eq cfg pro fuel _ s hr]
+    simp only [mapKidsM, Node.kids, mapM', run_bind, run_pure, Node.withKids]
+    obtain ⟨body', hb, hd⟩ := blockVisit_arr cfg fuel fuel body s
+    rw [hb]
+    split
+    · rw [program_directives_preserved pro k sp ns body' _ hpro]
+      exact directivesOf_congr hd
+    · simp only [programBody]
+      exact directivesOf_congr hd
+
 
 end IastModel.C07
